@@ -139,6 +139,10 @@ CORPUS = [
     # D24 (known finding): a regular definition that matches the empty string cannot be skipped
     {"lex": [(2, "_r", [[('p', [[('l', 97)]])]]), (0, "t", [[('f', "_r"), ('l', 98)]]), (0, "u", [[('l', 99), ('f', "_r"), ('l', 98)]])],
      "syn": [], "mode": "multi", "inputs": [list(b"b"), list(b"ab"), list(b"cb"), list(b"cab")]},
+    # seeded w7_C01: one class that straddles U+0080 next to a class that starts above it
+    {"lex": [(1, "!ws", [[('l', 32)], [('l', 10)]]), (2, "_latin", [[('r', 0x21, 0xFF)]]), (2, "_cjk", [[('r', 0x4E00, 0x9FFF)]]),
+             (0, "latin", [[('f', "_latin"), ('p', [[('f', "_latin")]])]]), (0, "cjk", [[('f', "_cjk"), ('p', [[('f', "_cjk")]])]])],
+     "syn": [], "mode": "single", "inputs": [list("été".encode()), list("café 一二 x".encode()), list("a\u00ff\u0100".encode())]},
     # D13 (fixed): a string literal spelled like the printed form of a character literal
     {"lex": [(0, "t1", [[('l', 97), ('l', 98)]])], "syn": [("S0", [(1, "t1"), (2, "'a'")], 0, 0)], "mode": "none",
      "inputs": [list(b"'ab"), list(b"ab'a'"), list(b"'a'")]},
